@@ -3,7 +3,9 @@ import FeatModel.Model.Xml
 C11 — model of `kernel/geometry/mesh_file_reader.hpp` (the markup parser classes MeshNodeParser, MeshParser,
 VerticesParser, TopologyParser, MeshPartParser, MappingParser, AttributeParser, PartitionParser, PatchParser and
 `MeshFileReader::read_root_markup`) and of `kernel/geometry/mesh_file_writer.hpp` for conformal meshes.
-Charts are tier B: a file with a `<Chart>` or a `topology="parent"` mesh part yields `Outcome.unmodelled`.
+Charts: `Circle` (2D) and `Sphere` (3D) are modelled (parser, atlas, chart links of mesh parts, writer); a file with a
+`Bezier`, `SurfaceMesh` or `Extrude` chart yields `Outcome.unmodelled`.  `topology="parent"` mesh parts are modelled
+(`MeshPart::deduct_topology`).
 Core Lean only.
 -/
 namespace FeatModel.C11
@@ -50,10 +52,17 @@ structure Partition where
   patches : List (List Nat)           -- one sorted duplicate-free element list per rank
   deriving DecidableEq, Repr
 
+/-- the modelled charts (`Atlas::Circle`, `Atlas::Sphere`) with the data their `write()` prints -/
+inductive Chart where
+  | circle (radius mx my : Rat) (dom : Option (Rat × Rat))
+  | sphere (radius mx my mz : Rat)
+  deriving DecidableEq, Repr
+
 structure Node where
   mesh : Option Mesh
   parts : List (Str × Part)           -- `std::map<String, MeshPartNodeBin>`: sorted by name
   partitions : List Partition         -- file order
+  charts : List (Str × Chart) := []   -- `MeshAtlas`: `std::map<String, Chart>`, sorted by name
   deriving DecidableEq, Repr
 
 /-! ### parser state -/
@@ -83,6 +92,8 @@ inductive Frame where
   | attr (name : Str) (dim count : Nat) (acc : List (List Rat))
   | partition (name : Str) (prio level : Int) (nr ne : Nat) (patches : List (List Nat)) (have_ : List Bool)
   | patch (rank size ne read : Nat) (elems : List Nat)
+  | chart (name : Str) (c : Option Chart)     -- `ChartParser`
+  | chartItem                                 -- a non-closed `<Circle …>` / `<Sphere …>` waiting for its terminator
   deriving Repr
 
 structure St where
@@ -235,7 +246,54 @@ def specOf (name : String) : List (Str × Bool) :=
    | "MeshPart" => [("name", true), ("parent", true), ("size", true), ("topology", true), ("chart", false)]
    | "Partition" => [("size", true), ("name", false), ("priority", false), ("level", false)]
    | "Patch" => [("rank", true), ("size", true)]
+   | "Chart" => [("name", true)]
+   | "Circle" => [("radius", true), ("midpoint", true), ("domain", false)]
+   | "Sphere" => [("radius", true), ("midpoint", true)]
    | _ => []) : List (String × Bool)).map (fun kv => (kv.1.toList, kv.2))
+
+/-- the `double` literal `1E-5` as an exact rational (the radius threshold of the chart parsers, `CoordType(1E-5)`) -/
+def radiusMin : Rat := mkRat 5902958103587057 590295810358705651712
+
+/-- `CircleChartParser::create`; the Bool is "the exact-arithmetic harness cannot build this chart" (degenerate domain) -/
+def circleCreate (line : Nat) (m : Markup) : Except Err (Chart × Bool) :=
+  match attrOf m "radius", attrOf m "midpoint" with
+  | some rs, some ms =>
+    match readQ rs with
+    | none => gErr line
+    | some r =>
+      if r < radiusMin then gErr line
+      else match splitWs ms with
+        | [a, b] =>
+          match readQ a, readQ b with
+          | some mx, some my =>
+            match attrOf m "domain" with
+            | none => .ok (Chart.circle r mx my none, false)
+            | some ds =>
+              match splitWs ds with
+              | [c, d] =>
+                match readQ c, readQ d with
+                | some l, some rr => .ok (Chart.circle r mx my (some (l, rr)), l == rr)
+                | _, _ => gErr line
+              | _ => gErr line
+          | _, _ => gErr line
+        | _ => gErr line
+  | _, _ => gErr line
+
+/-- `SphereChartParser::create` -/
+def sphereCreate (line : Nat) (m : Markup) : Except Err Chart :=
+  match attrOf m "radius", attrOf m "midpoint" with
+  | some rs, some ms =>
+    match readQ rs with
+    | none => gErr line
+    | some r =>
+      if r < radiusMin then gErr line
+      else match splitWs ms with
+        | [a, b, c] =>
+          match readQ a, readQ b, readQ c with
+          | some mx, some my, some mz => .ok (Chart.sphere r mx my mz)
+          | _, _, _ => gErr line
+        | _ => gErr line
+  | _, _ => gErr line
 
 /-- `close()` of the top frame and its hand-over to the parent (`line` = line of the terminator) -/
 def closeTop (st : St) (line : Nat) : Except Err St :=
@@ -243,6 +301,11 @@ def closeTop (st : St) (line : Nat) : Except Err St :=
   | [] => gErr line
   | Frame.root :: rest => .ok { st with stack := rest }
   | Frame.dummy :: rest => .ok { st with stack := rest }
+  | Frame.chartItem :: rest => .ok { st with stack := rest }
+  | Frame.chart name c :: rest =>
+    match c with
+    | none => gErr line                                   -- "Invalid empty chart"
+    | some ch => .ok { st with stack := rest, node := { st.node with charts := mapInsert strLt name ch st.node.charts } }
   | Frame.verts count acc :: Frame.mesh sizes _ topo :: rest =>
     if acc.length < count then gErr line
     else .ok { st with stack := Frame.mesh sizes (some acc.reverse) topo :: rest }
@@ -302,7 +365,17 @@ def openM (st : St) (line : Nat) (m : Markup) : Except Err St :=
   | Frame.dummy :: _ => push st Frame.dummy
   | Frame.root :: _ =>
     if nm == "Info" then push st Frame.dummy
-    else if nm == "Chart" then push { st with unmodelled := true } Frame.dummy
+    else if nm == "Chart" then
+      match checkAttribs line (specOf "Chart") m.attrs with
+      | .error e => .error e
+      | .ok _ =>
+        if m.closed then gErr line
+        else match attrOf m "name" with
+          | none => gErr line
+          | some name =>
+            if name.isEmpty then gErr line
+            else if (mapFind strLt name st.node.charts).isSome then cErr line
+            else push st (Frame.chart name none)
     else if nm == "Mesh" then
       if st.node.mesh.isSome then gErr line
       else match checkAttribs line (specOf "Mesh") m.attrs with
@@ -326,6 +399,30 @@ def openM (st : St) (line : Nat) (m : Markup) : Except Err St :=
         match partitionCreate line m with
         | .error e => .error e
         | .ok f => push st f
+    else gErr line
+  | Frame.chart name _ :: below =>
+    -- `DimensionalChartHelper`: Circle / Bezier in 2D, Sphere / SurfaceMesh / Extrude in 3D
+    if st.dim == 2 && nm == "Circle" then
+      match checkAttribs line (specOf "Circle") m.attrs with
+      | .error e => .error e
+      | .ok _ =>
+        match circleCreate line m with
+        | .error e => .error e
+        | .ok (ch, degenerate) =>
+          let st1 := { st with stack := Frame.chart name (some ch) :: below, unmodelled := st.unmodelled || degenerate }
+          if m.closed then .ok st1 else .ok { st1 with stack := Frame.chartItem :: st1.stack }
+    else if st.dim == 3 && nm == "Sphere" then
+      match checkAttribs line (specOf "Sphere") m.attrs with
+      | .error e => .error e
+      | .ok _ =>
+        match sphereCreate line m with
+        | .error e => .error e
+        | .ok ch =>
+          let st1 := { st with stack := Frame.chart name (some ch) :: below }
+          if m.closed then .ok st1 else .ok { st1 with stack := Frame.chartItem :: st1.stack }
+    else if (st.dim == 2 && nm == "Bezier") || (st.dim == 3 && (nm == "SurfaceMesh" || nm == "Extrude")) then
+      -- not modelled: remember that, give the chart a placeholder and skip the element
+      push { st with stack := Frame.chart name (some (Chart.sphere 0 0 0 0)) :: below, unmodelled := true } Frame.dummy
     else gErr line
   | Frame.mesh sizes verts topo :: _ =>
     if nm == "Vertices" then
@@ -483,6 +580,36 @@ def mapOutOfRange (n : Node) : Bool :=
   | none => false
   | some m => n.parts.any (fun np => np.2.maps.zipIdx.any (fun (idx, d) => idx.any (fun i => i ≥ m.sizes.getD d 0)))
 
+/-- the part's local index of parent vertex `v`: the LAST position in the vertex mapping (the loop of
+    `IndexSetFiller` overwrites), `none` if the vertex is not in the mesh part -/
+def invVertex (vmap : List Nat) (v : Nat) : Option Nat :=
+  vmap.zipIdx.foldl (fun acc xi => if xi.1 == v then some xi.2 else acc) none
+
+/-- `MeshPart::deduct_topology` (`IndexSetFiller::fill_ish`): restriction of the parent's index sets to the cells of the
+    part, renumbered by the part's vertex mapping; `none` if a cell refers to a vertex outside the part (the real code
+    then stores the out-of-bounds sentinel `nv+1`: open finding K11) -/
+def deductTopo (m : Mesh) (p : Part) : Option (List (List (List Nat))) :=
+  mapMOpt (fun d => mapMOpt (fun c => mapMOpt (invVertex (p.maps.getD 0 [])) ((m.topo.getD d []).getD c []))
+                      (p.maps.getD (d + 1) [])) (List.range m.topo.length)
+
+/-- `MeshNodeLinker::execute`, first loop: every (mesh part, chart) link needs the chart in the atlas -/
+def resolveLinks : List (Str × Str) → Node → Option Node
+  | [], n => some n
+  | (pn, cn) :: rest, n =>
+    if (mapFind strLt cn n.charts).isNone then none
+    else resolveLinks rest { n with parts := n.parts.map (fun np => if np.1 == pn then (np.1, { np.2 with chart := cn }) else np) }
+
+/-- `MeshNodeLinker::execute`, last loop: deduct the topologies of the `topology="parent"` parts -/
+def resolveDeduct : List Str → Node → Option Node
+  | [], n => some n
+  | pn :: rest, n =>
+    match n.mesh, mapFind strLt pn n.parts with
+    | some m, some p =>
+      match deductTopo m p with
+      | none => none
+      | some t => resolveDeduct rest { n with parts := n.parts.map (fun np => if np.1 == pn then (np.1, { np.2 with topo := t }) else np) }
+    | _, _ => none
+
 /-- `MeshFileReader::parse<RootMesh_>` for a fixed mesh type, from the root markup on, then `linker.execute()` -/
 def parseBody (sh : Shape) (dim : Nat) (m : Markup) (iline : Nat) (rest : List Str) : Outcome :=
   match checkAttribs iline (specOf "root") m.attrs with
@@ -495,10 +622,13 @@ def parseBody (sh : Shape) (dim : Nat) (m : Markup) (iline : Nat) (rest : List S
     | .error e => .err e
     | .ok st =>
       if st.unmodelled then .unmodelled
-      else if !st.links.isEmpty then .err ⟨.linker, 0⟩
-      else if mapOutOfRange st.node then .err ⟨.linker, 0⟩
-      else if !st.deduct.isEmpty then (if st.node.mesh.isNone then .err ⟨.linker, 0⟩ else .unmodelled)
-      else .ok sh dim st.node
+      else match resolveLinks st.links st.node with
+        | none => .err ⟨.linker, 0⟩
+        | some n1 =>
+          if mapOutOfRange n1 then .err ⟨.linker, 0⟩
+          else match resolveDeduct st.deduct n1 with
+            | none => .err ⟨.linker, 0⟩
+            | some n2 => .ok sh dim n2
 
 /-- the whole `mesh` op of the harness: read the root markup, pick the mesh type, parse -/
 def parseMeshFile (text : Str) : Outcome :=
@@ -573,11 +703,27 @@ def writePartition (p : Partition) : List Str :=
     el.map (fun e => sp 6 ++ showNat e) ++ [sp 4 ++ "</Patch>".toList])).flatten ++
   [sp 2 ++ "</Partition>".toList]
 
+/-- `MeshFileWriter::write_chart` with `Circle::write` / `Sphere::write` (the circle's domain is reconstructed from its
+    transformation, which is exact in rational arithmetic) -/
+def writeChart (name : Str) (c : Chart) : List Str :=
+  [sp 2 ++ "<Chart name=".toList ++ q name ++ ">".toList,
+   (match c with
+    | .circle r mx my dom =>
+      sp 4 ++ "<Circle radius=".toList ++ q (showQ r) ++ " midpoint=".toList ++ q (showQ mx ++ ' ' :: showQ my) ++
+        (match dom with
+         | some (l, rr) => " domain=".toList ++ q (showQ l ++ ' ' :: showQ rr)
+         | none => []) ++ " />".toList
+    | .sphere r mx my mz =>
+      sp 4 ++ "<Sphere radius=".toList ++ q (showQ r) ++ " midpoint=".toList ++
+        q (showQ mx ++ ' ' :: showQ my ++ ' ' :: showQ mz) ++ " />".toList),
+   sp 2 ++ "</Chart>".toList]
+
 def writeLines (sh : Shape) (dim : Nat) (n : Node) : List Str :=
   ["<FeatMeshFile version=\"1\"".toList ++
     (match n.mesh with
      | some _ => " mesh=".toList ++ q (meshTypeStr sh dim)
      | none => []) ++ ">".toList] ++
+  (n.charts.map (fun nc => writeChart nc.1 nc.2)).flatten ++
   (match n.mesh with
    | some m => writeMesh sh dim m
    | none => []) ++
